@@ -249,7 +249,7 @@ theorem runPart_slice (lens : List Nat) (k : Nat) (cs e' st : Int) (hk : k < len
 def sliceChunk (lens : List Nat) (s e st : Int) (ind : Int) : Except Err (List (Nat × Nat)) := do
   let p ← pyListIdx lens.length ind
   let off : Int := (((partStarts lens).getD p 0 : Nat) : Int)
-  let cs : Int := if s ≥ off then s - off else (s - off).emod st
+  let cs : Int := if s ≥ off then s - off else pyMod (s - off) st
   runPart lens p (.slice (some cs) (some (e - off)) (some st))
 
 theorem map_toNat_shift (R : List Int) (off : Nat) (h : ∀ x ∈ R, 0 ≤ x) :
@@ -274,8 +274,9 @@ theorem sliceChunk_spec (lens : List Nat) (s e st : Int) (hst : 0 < st) (p : Nat
     have : (0 : Int) ≤ (p : Int) ∧ (p : Int) < (lens.length : Int) := by omega
     rw [if_pos this]; simp
   let off : Nat := total (lens.take p)
-  have hcs : (if s ≥ (off : Int) then s - off else (s - off).emod st) = nextGE s st off - off := by
+  have hcs : (if s ≥ (off : Int) then s - off else pyMod (s - off) st) = nextGE s st off - off := by
     unfold nextGE
+    simp only [pyMod, if_pos hst]
     split <;> simp [emod_eq] <;> omega
   have hge := nextGE_ge s st off hst
   let cs : Int := nextGE s st off - off
